@@ -4,12 +4,12 @@
 use super::*;
 use crate::verif_harness::common::verif_replay_table;
 
-const PEAKS: [f64; 6] = [0.0, 0.5, 1.0, 2.75, 7.125, 123.456];
+const PEAKS: [f64; 4] = [0.0, 0.5, 2.75, 123.456];
 const WEIGHTS: [f64; 2] = [0.9, 0.94];
 
 fn any_peak() -> f64 {
     let i: u8 = kani::any();
-    kani::assume(i < 6);
+    kani::assume(i < 4);
     PEAKS[i as usize]
 }
 
@@ -70,6 +70,69 @@ pub fn c16_difficulty_value_k3() {
     difficulty_value_model::<3>();
 }
 
+/// The peaks a skill exports = its closed sections + the currently open one, ALWAYS (also when the
+/// open section's peak is 0): all skills of a mode then report the same number of sections.
+/// `get_current_strain_peaks` is a provided method of the StrainSkill trait; a dummy implementor
+/// reaches it.
+struct Dummy;
+impl StrainSkill for Dummy {
+    type DifficultyObject<'a> = ();
+    type DifficultyObjects<'a> = ();
+    fn process<'a>(&mut self, _c: &(), _o: &()) {}
+    fn count_top_weighted_strains(&self, _d: f64) -> f64 {
+        0.0
+    }
+    fn save_current_peak(&mut self) {}
+    fn start_new_section_from<'a>(&mut self, _t: f64, _c: &(), _o: &()) {}
+    fn into_current_strain_peaks(self) -> StrainsVec {
+        StrainsVec::with_capacity(1)
+    }
+    fn difficulty_value(_p: StrainsVec) -> f64 {
+        0.0
+    }
+    fn into_difficulty_value(self) -> f64 {
+        0.0
+    }
+    fn cloned_difficulty_value(&self) -> f64 {
+        0.0
+    }
+}
+
+fn open_section<const K: usize>() {
+    let mut sv = StrainsVec::with_capacity(4);
+    let mut vals = [0.0f64; K];
+    for i in 0..K {
+        let v: f64 = kani::any();
+        kani::assume(v >= 0.0 && v.is_finite());
+        vals[i] = v;
+        sv.push(v);
+    }
+    let cur: f64 = kani::any();
+    kani::assume(cur >= 0.0 && cur.is_finite());
+    let out = <Dummy as StrainSkill>::get_current_strain_peaks(sv, cur);
+    assert!(out.len() == K + 1, "C16 exported peaks = closed sections + the open section, whatever its value");
+    let mut it = out.iter();
+    for i in 0..K {
+        assert!(it.next() == Some(vals[i]), "C16 closed sections are exported unchanged");
+    }
+    assert!(it.next() == Some(cur), "C16 the open section is exported last");
+    kani::cover!(cur == 0.0 && K > 0 && vals[K - 1] > 0.0, "open section with zero peak");
+    kani::cover!(cur > 0.0, "open section with positive peak");
+    core::mem::forget(out);
+}
+
+#[kani::proof]
+#[kani::unwind(6)]
+pub fn c16_open_section_exported_k0() {
+    open_section::<0>();
+}
+
+#[kani::proof]
+#[kani::unwind(6)]
+pub fn c16_open_section_exported_k2() {
+    open_section::<2>();
+}
+
 #[kani::proof]
 #[kani::unwind(5)]
 pub fn c09_degenerate_strain_lists() {
@@ -85,4 +148,5 @@ pub fn c09_degenerate_strain_lists() {
 
 verif_replay_table!(verif_replay_any_skills;
     c16_difficulty_value_k2, c16_difficulty_value_k3, c09_degenerate_strain_lists,
+    c16_open_section_exported_k0, c16_open_section_exported_k2,
 );
